@@ -716,6 +716,14 @@ func (c *fctx) forStmt() []*S {
 			}}
 			loop.Body = append([]*S{sw}, loop.Body...)
 			c.g.mark("loop_body_starts_with_a_switch_left_by_break_after_a_yield")
+		} else if c.gen && !c.inLit && r.Chance(1, 5) {
+			// the ONLY break of a yielding switch sits, together with the yield in front of it, in
+			// an if of a clause: it leaves the switch, the statements behind the switch and the
+			// later iterations still run
+			id := c.g.id()
+			text := fmt.Sprintf("switch {\ncase %[1]s%%2 == 0:\n\tif %[1]s >= 0 {\n\t\t«Yield»(%[1]s + 50)\n\t\tbreak\n\t}\n\tvrt.E(%[2]d, %[1]s)\ndefault:\n\tvrt.E(%[3]d, %[1]s)\n}\nvrt.E(%[4]d, %[1]s)", ctr, c.g.nextTag(), c.g.nextTag(), c.g.nextTag())
+			loop.Body = append([]*S{{K: SRaw, ID: id, Src: text}}, loop.Body...)
+			c.g.mark("only_break_of_a_yielding_switch_nested_with_its_yield_in_an_if")
 		}
 		if r.Chance(1, 4) {
 			// the loop variable is written ONLY through a closure created in the body and
